@@ -1,7 +1,7 @@
 (* C06 — Grapheme, word and line boundaries follow UAX #29 / UAX #14 for every string.
    Property theorems only.  Model: Model/Segmenter.v (tied to segmenter/*.go by the correspondence check);
    specifications: Spec/UAX29.v, Spec/UAX14.v. *)
-From TV Require Import Model.Segmenter Spec.UAX29 Spec.UAX14 Proofs.SegCommon Proofs.SegG Proofs.SegIter.
+From TV Require Import Model.Segmenter Spec.UAX29 Spec.UAX14 Proofs.SegCommon Proofs.SegG Proofs.SegL Proofs.SegIter.
 Open Scope Z_scope.
 
 (* Init is total: for every rune string the attribute computation neither panics (the write-back index of
@@ -18,6 +18,16 @@ Theorem grapheme_attrs_eq_spec : forall text,
   exists attrs, compute_attrs text = Ok attrs /\ map a_grapheme attrs = gb_spec text.
 Proof. exact grapheme_lemma. Qed.
 Print Assumptions grapheme_attrs_eq_spec.
+
+(* line break opportunities and mandatory breaks are exactly those of UAX #14 (LB1–LB31 with the LB25 tailoring of
+   Example 7), for every string over the library's classes that is free of the one documented deviation F3
+   (f3_free: no "(PR|PO) (OP|HY) (CM|ZWJ)+ NU"); `partial` names that exclusion, nothing else is missing *)
+Theorem line_attrs_eq_spec_partial : forall text,
+  forallb obs_wf_l text = true -> f3_free text = true ->
+  exists attrs, compute_attrs text = Ok attrs /\
+                map (fun a => (a_line a, a_mandatory a)) attrs = map flags_of (lb_spec text).
+Proof. exact line_lemma. Qed.
+Print Assumptions line_attrs_eq_spec_partial.
 
 (* results do not depend on what the Segmenter object processed before *)
 Theorem init_history_independent : forall s paragraph, seg_init s paragraph = seg_init seg_zero paragraph.
@@ -38,3 +48,13 @@ Example wf_example :
   let ri := mkObs LB_RI false false false false false GB_RI WB_RI false false false false false in
   forallb obs_wf_g [pic; zwj; pic; ri; ri] = true /\ gb_spec [pic; zwj; pic; ri; ri] = [true; false; false; true; false; true].
 Proof. split; reflexivity. Qed.
+
+Example line_example :
+  let al := mkObs LB_AL false false false false false GB_None WB_ALetter false false false false true in
+  let sp := mkObs LB_SP false false false false false GB_None WB_WSegSpace false false false false false in
+  let cm := mkObs LB_CM true false false false false GB_Extend WB_ExtendFormat false false false false false in
+  let lf := mkObs LB_LF false false false false false GB_LF WB_NewlineCRLF true false false false false in
+  let t := [al; cm; sp; cm; al; lf; al] in
+  forallb obs_wf_l t = true /\ f3_free t = true
+  /\ lb_spec t = [Prohibited; Prohibited; Prohibited; Allowed; Prohibited; Prohibited; Mandatory; Mandatory].
+Proof. repeat split; reflexivity. Qed.
